@@ -60,7 +60,8 @@ def selfvalidate(rep, pid):
                        ("swap_independent", "adjacent independent simple assignments exchanged"),
                        ("annotated_assignments", "every assignment of a local name written with an annotation (x: object = E)"),
                        ("inserted_pass", "a `pass` inserted after every statement of every function"),
-                       ("hoisted_calls", "call arguments that are calls computed into temporaries first (h = g(x); y = f(h))")):
+                       ("hoisted_calls", "call arguments that are calls computed into temporaries first (h = g(x); y = f(h))"),
+                       ("inlined_temporaries", "call-free single-use temporaries written into the statement that follows them")):
         vs.append(dict(pid=pid, name=f"twin: {what}", expect="silent", edits=[], tier="quick", mentions=None, transform=kind))
     with cf.ThreadPoolExecutor(min(16, os.cpu_count() or 4)) as ex:
         res = list(ex.map(selftest.run_variant, vs))
